@@ -105,7 +105,7 @@ func kernelItems(r *rt.Run) ([]item, map[string]any) {
 	sampled := 0
 	_ = leaves1
 	// deeper trees: seeded random, depth 4..5
-	deep := 1500
+	deep := 4000
 	if r.Thorough() {
 		deep = 20000
 	}
@@ -166,7 +166,7 @@ func randTree(r *rt.Run, d int) T {
 
 // Run: the check's driver.
 func runCheck(r *rt.Run) error {
-	nRandom := 400
+	nRandom := 1000
 	if r.Thorough() {
 		nRandom = 6000
 	}
@@ -201,11 +201,34 @@ func runCheck(r *rt.Run) error {
 			sigHits[s.Sig]++
 		}
 	}
+	// the evidence samples are the first traces: start with one of each kind
+	first := map[int]bool{}
+	firstS := map[int]bool{}
+	for i, it := range kitems {
+		if it.Tag == "depth3/s0/r0" && len(it.Toks) >= 7 && !kouts[i].Skip {
+			emit(kouts[i], it)
+			first[i] = true
+			break
+		}
+	}
+	for _, want := range []string{"comment:before-chain", "InfluxDBOutNode.precision"} {
+		for i, it := range sitems {
+			if it.Tag == want && !souts[i].Skip && !firstS[i] {
+				emit(souts[i], it)
+				firstS[i] = true
+				break
+			}
+		}
+	}
 	for i, o := range kouts {
-		emit(o, kitems[i])
+		if !first[i] {
+			emit(o, kitems[i])
+		}
 	}
 	for i, o := range souts {
-		emit(o, sitems[i])
+		if !firstS[i] {
+			emit(o, sitems[i])
+		}
 	}
 	for k, v := range kextra {
 		r.Extra[k] = v
